@@ -2,9 +2,9 @@ package main
 
 import (
 	"fmt"
-	"strings"
 	"go/types"
 	"sort"
+	"strings"
 
 	"golang.org/x/tools/go/ssa"
 )
@@ -20,11 +20,27 @@ func (fr *Frame) loopEnv(li *loopInfo, st *State) *SpecEnv {
 	r := fr.run
 	env := &SpecEnv{run: r, pkg: fr.fn.Pkg.Pkg, cur: st, old: fr.entry, loopPre: fr.loopPre[li.header], vars: fr.paramSVs(), frame: fr, fc: fr.contract}
 	// range-over-map loop: expose the visited set
-	for _, ins := range li.header.Instrs {
-		if nx, ok := ins.(*ssa.Next); ok {
-			if _, ok := fr.mapIters[nx.Iter]; ok {
-				env.iterKey = fr.iterKey(nx.Iter)
+	find := func(l *loopInfo) {
+		for _, ins := range l.header.Instrs {
+			if nx, ok := ins.(*ssa.Next); ok {
+				if _, ok := fr.mapIters[nx.Iter]; ok && env.iterKey == "" {
+					env.iterKey = fr.iterKey(nx.Iter)
+				}
 			}
+		}
+	}
+	find(li)
+	if env.iterKey == "" {
+		// a loop nested in a range-over-map loop sees the enclosing loop's visited set (innermost enclosing first)
+		var encl []*loopInfo
+		for _, l := range fr.loops {
+			if l != li && l.blocks[li.header] {
+				encl = append(encl, l)
+			}
+		}
+		sort.Slice(encl, func(i, j int) bool { return len(encl[i].blocks) < len(encl[j].blocks) })
+		for _, l := range encl {
+			find(l)
 		}
 	}
 	return env
@@ -508,7 +524,6 @@ func (fr *Frame) checkLoopStep(li *loopInfo, st *State) {
 
 var _ = types.Typ
 
-
 // onlyAppendedTo: every store to local a inside the loop is `a = append(a, ...)`.
 func onlyAppendedTo(a *ssa.Alloc, li *loopInfo) bool {
 	n := 0
@@ -535,7 +550,6 @@ func onlyAppendedTo(a *ssa.Alloc, li *loopInfo) bool {
 	}
 	return n > 0
 }
-
 
 // accOnlyKey: every non-fresh write to heap key k in the loop body goes to the backing array of an owned append accumulator.
 func (li *loopInfo) accOnlyKey(r *Run, k string) bool {
